@@ -113,6 +113,13 @@ impl<T: ZeroCopy + DeserializeInner, const N: usize> DeserializeHelper<Zero> for
     ) -> deser::Result<<Self as DeserializeInner>::DeserType<'a>> {
         backend.align::<T>()?;
         let bytes = std::mem::size_of::<[T; N]>();
+        if bytes == 0 {
+            // Empty arrays and arrays of zero-sized elements occupy no bytes,
+            // and `align_to` returns no element for them.
+            // SAFETY: a dangling (non-null, aligned) pointer is a valid
+            // reference to a zero-sized array.
+            return Ok(unsafe { core::ptr::NonNull::<[T; N]>::dangling().as_ref() });
+        }
         let (pre, data, after) = unsafe { backend.data[..bytes].align_to::<[T; N]>() };
         debug_assert!(pre.is_empty());
         debug_assert!(after.is_empty());
